@@ -24,6 +24,9 @@ func (f *FnVC) execInstr(st *State, in ssa.Instruction) {
 		r := f.newRef(st)
 		f.zeroInit(st, r, t)
 		f.set(x, Val{T: r, Typ: x.Type()})
+		if !x.Heap {
+			st.Locals = append(st.Locals, f.objectRefs(r, t, 0)...)
+		}
 	case *ssa.BinOp:
 		f.set(x, f.binop(st, x.Op, f.get(x.X), f.get(x.Y), x.Type(), x.Pos()))
 	case *ssa.UnOp:
